@@ -366,6 +366,68 @@ fn main() {
             let corners = CornerRadii { top_left: r(rng), top_right: r(rng), bottom_right: r(rng), bottom_left: r(rng) };
             check_rounded(ctx, Rectangle::new(pos(rng), Size::new(w, h)), corners);
         });
+        // display-scale rectangles: only the arithmetic of `confine_radii()` (sums never exceed the
+        // shared side, fitting radii stay as they are) - no point sets, so millions of cases are cheap.
+        // Half of the cases overflow two sides by nearly the same ratio, where a scale factor taken from
+        // the wrong side leaves an excess of a pixel or two (added after seeded `C18-12`: ratios compared
+        // with 8 fractional bits, wrong only for sides of about 300 px and more)
+        let nconf = run.tier(1_500_000u64, 150_000_000u64);
+        run.generate("confine-display-scale", nconf, false, 0.15, |ctx, _idx, rng| {
+            let side = |rng: &mut Rng| match rng.below(8) {
+                0 => rng.u32r(0, 40),
+                // (radius x side passes 2^32 from sides of 46 341: scaled in 64 bits since the repair of DESIGN 5.1 #23)
+                1 => rng.u32r(1000, 100_000),
+                2 => 1u32 << rng.u32r(4, 17),
+                _ => rng.u32r(40, 1400),
+            };
+            let (w, h) = (side(rng), side(rng));
+            let corners = if rng.chance(1, 2) {
+                // a common overflow ratio q/1000 on both axes, with a jitter of a few pixels
+                let q = rng.u32r(400, 2600) as u64;
+                let j = |rng: &mut Rng, v: u64| (v as i64 + rng.i32r(-3, 3) as i64).max(0) as u32;
+                let mut c = |rng: &mut Rng| Size::new(j(rng, w as u64 * q / 2000), j(rng, h as u64 * q / 2000));
+                if rng.chance(1, 2) {
+                    CornerRadii::new(c(rng))
+                } else {
+                    CornerRadii { top_left: c(rng), top_right: c(rng), bottom_right: c(rng), bottom_left: c(rng) }
+                }
+            } else {
+                let mut r = |rng: &mut Rng| match rng.below(6) {
+                    0 => Size::zero(),
+                    1 => Size::new(rng.u32r(0, w / 2), rng.u32r(0, h / 2)),
+                    _ => Size::new(rng.u32r(0, w * 2 + 2), rng.u32r(0, h * 2 + 2)),
+                };
+                CornerRadii { top_left: r(rng), top_right: r(rng), bottom_right: r(rng), bottom_left: r(rng) }
+            };
+            ctx.eval();
+            let rr = RoundedRectangle::new(Rectangle::new(pos(rng), Size::new(w, h)), corners);
+            let case = || format!("{:?}", rr);
+            let c = rr.confine_radii().corners;
+            let sums = [(c.top_left.width as u64 + c.top_right.width as u64, w as u64), (c.bottom_left.width as u64 + c.bottom_right.width as u64, w as u64), (c.top_left.height as u64 + c.bottom_left.height as u64, h as u64), (c.top_right.height as u64 + c.bottom_right.height as u64, h as u64)];
+            if sums.iter().any(|(s, side)| s > side) {
+                ctx.violation("rounded_rectangle|confined-radii-exceed-side", case, || format!("confined radii {:?}: sums/sides (top, bottom, left, right) {:?}", c, sums));
+                return;
+            }
+            let o = corners;
+            let fits = o.top_left.width as u64 + o.top_right.width as u64 <= w as u64 && o.bottom_left.width as u64 + o.bottom_right.width as u64 <= w as u64 && o.top_left.height as u64 + o.bottom_left.height as u64 <= h as u64 && o.top_right.height as u64 + o.bottom_right.height as u64 <= h as u64;
+            if fits && c != o {
+                ctx.violation("rounded_rectangle|fitting-radii-changed-by-confine", case, || format!("{:?}", c));
+                return;
+            }
+            // confining never enlarges a radius
+            let grown = [(c.top_left, o.top_left), (c.top_right, o.top_right), (c.bottom_right, o.bottom_right), (c.bottom_left, o.bottom_left)].iter().any(|(a, b)| a.width > b.width || a.height > b.height);
+            if grown {
+                ctx.violation("rounded_rectangle|confine-enlarges-a-radius", case, || format!("{:?}", c));
+                return;
+            }
+            if !fits {
+                ctx.nontrivial(mix(mix(w as u64, h as u64), mix(o.top_left.width as u64, o.bottom_right.height as u64)));
+            }
+            ctx.count("display_scale_confinements", 1);
+            if ctx.wants_sample() {
+                ctx.sample(|| jobj! {"rounded_rectangle" => format!("{:?}", rr), "confined" => format!("{:?}", c)});
+            }
+        });
         // arcs / sectors on an angle grid
         let step = run.tier(5u64, 1u64);
         let na = 360 / step;
